@@ -1,6 +1,8 @@
 """C03 - wrap overflow is exact two's-complement modular arithmetic."""
 from . import pipeline, carriers, flags
 
+from . import routes, fresh, flags, sizes, conv, dtype, carriers, funcs, ops, strings, pipeline, widths
+
 EXPLANATION = (
     "R1 every path of utils.wrap (signed/unsigned x int64/object carrier), after substitution, is classified in an abstract "
     "modular domain and must normalise to x mod 2^n_word, re-signed at exactly 2^(n_word-1) (strict) by subtracting 2^n_word, with no "
@@ -18,9 +20,10 @@ def run(ck):
     pipeline.overflow_dispatch(ck, "C02.R6", "C03.R2", roles)
     pipeline.store_pipeline(ck, "C01.R2", want_bounds=True)
     carriers.threshold_everywhere(ck, "C18.R1")
-    from . import funcs, sizes
     funcs.governing_config(ck, "C08.R3")               # results stored with wrap: the wrap configuration must be the one the result carries
     sizes.resize_rules(ck, {"restore_raw": "C10.R1"})  # resize re-stores exact integer codes (no float detour at 64+ bits)
     # products stored with wrap into 64+ bit registers: the multiply must not fold modulo 2^64 first
-    from . import widths
     widths.kernel_widths(ck, "C19.R1", None, names=("mul",))
+    fresh.constructor_state(ck, "C20.R2")            # an explicit overflow='wrap' reaches the final configuration
+    routes.numpy_dispatch_transparent(ck, "C15.R5")  # the numpy route computes what the direct call computes (exact integers before wrap)
+    sizes.init_size_relation(ck, "C06.R1")            # registers built from (signed, n_int, n_frac) keep the word they were given, n_int == 0 included
